@@ -122,7 +122,7 @@ EXTRA = {
  'C12': 'Also: a circuit representation with a 1200-gate path, inputs named out of text order, integer wrappers of 65-128 bits (bit-sequence clauses), copied / pickled don\'t-care markers.',
  'C13': 'Also: 33 / 65 / 129 outputs, output labels that are ambiguous once joined, operands with 1200-gate paths (kind miterdeep).',
  'C14': 'Also: helper-like and keyword labels, gates rebuilt under their old label between two conversions, chains of 1500 gates with nested and overlapping blocks.',
- 'C15': 'Also: gates of arity 9-12, circuits restricted by one replace_inputs call before evaluation.',
+ 'C15': 'Also: gates of arity 9-12, circuits restricted by one replace_inputs call before evaluation, chains of 1500 gates under all nine partial assignments (kind partialdeep).',
  'C16': 'Also: chains of 1200 gates, node / output counts around 256 / 512 (thorough: 1024), decoder-style labels with permuted inputs, encode-decode-reorder-encode histories.',
  'C17': 'Also: five exclusion lists for the don\'t-care lookup, models with 13 don\'t-cares, copied / pickled don\'t-care markers.',
  'C18': 'Also: chains of 1500 gates through pipelines of every shape, 17-input circuits through the heavy clean-up, equivalence groups containing the empty label.',
